@@ -4,9 +4,11 @@ package main
 
 import (
 	"fmt"
+	"os"
 	"go/constant"
 	"go/token"
 	"go/types"
+	"sort"
 	"strings"
 
 	"golang.org/x/tools/go/packages"
@@ -1168,7 +1170,31 @@ func (h *HeapCtx) stableUnderFresh(pd *PredDef, sym string, sorts []*Sort, array
 		var bound *Term
 		ok := true
 		differs := false
-		for name, cur := range arrays {
+		// chain(from, to): follow the fresh-frame chain from the newer version back to the older one
+		var hopConds []*Term
+		chain := func(from, to string) (*Term, bool) {
+			var bd *Term
+			var cs []*Term
+			t := from
+			for steps := 0; steps < 64; steps++ {
+				fp, isFresh := h.freshFrom[t]
+				if !isFresh {
+					return nil, false
+				}
+				bd = fp.next // the earliest hop is reached last: it has the smallest counter
+				if fp.cond != nil {
+					cs = append(cs, fp.cond)
+				}
+				t = fp.old.S
+				if t == to {
+					hopConds = append(hopConds, cs...)
+					return bd, true
+				}
+			}
+			return nil, false
+		}
+		for _, name := range sortedKeysS(arrays) {
+			cur := arrays[name]
 			old, has := p.arrays[name]
 			if !has {
 				ok = false
@@ -1178,24 +1204,23 @@ func (h *HeapCtx) stableUnderFresh(pd *PredDef, sym string, sorts []*Sort, array
 				continue
 			}
 			differs = true
-			// follow the fresh-frame chain from cur back to old
-			t := cur
-			found := false
-			for steps := 0; steps < 64; steps++ {
-				fp, isFresh := h.freshFrom[t]
-				if !isFresh {
-					break
-				}
-				bound = fp.next // the earliest hop is reached last: it has the smallest counter
-				t = fp.old.S
-				if t == old {
-					found = true
-					break
-				}
+			// the earlier symbol may read the newer state (old(...) used after the current-state form): both directions
+			bd, found := chain(cur, old)
+			if !found {
+				bd, found = chain(old, cur)
 			}
 			if !found {
+				if os.Getenv("GOVC_DEBUG_STABLE") != "" {
+					fmt.Fprintf(os.Stderr, "stable %s: %s vs %s: no chain for %s (%s -> %s)\n", pd.Name, sym, p.sym, name, cur, old)
+				}
 				ok = false
 				break
+			}
+			// the guard must hold for the oldest state involved: keep the smallest counter (first hop of either chain)
+			if bound == nil {
+				bound = bd
+			} else {
+				bound = mk(SInt, "ite", Lt(bd, bound), bd, bound)
 			}
 		}
 		if !ok || !differs || bound == nil {
@@ -1204,6 +1229,13 @@ func (h *HeapCtx) stableUnderFresh(pd *PredDef, sym string, sorts []*Sort, array
 		var bs []Bound
 		var vs []*Term
 		var guards []*Term
+		seenC := map[string]bool{}
+		for _, c := range hopConds {
+			if !seenC[c.S] {
+				seenC[c.S] = true
+				guards = append(guards, c)
+			}
+		}
 		for i, srt := range sorts {
 			bn := fmt.Sprintf("sf!%d", i)
 			bs = append(bs, Bound{bn, srt})
@@ -1218,8 +1250,17 @@ func (h *HeapCtx) stableUnderFresh(pd *PredDef, sym string, sorts []*Sort, array
 		}
 		a2 := mk(SBool, sym, vs...)
 		a1 := mk(SBool, p.sym, vs...)
-		h.emit(Forall(bs, Implies(And(guards...), mk(SBool, "=", a2, a1)), []*Term{a2}))
+		h.emit(Forall(bs, Implies(And(guards...), mk(SBool, "=", a2, a1)), []*Term{a2}, []*Term{a1}))
 		h.w.assume("opaque predicates are stable under calls and loops that write only freshly allocated objects (meta-lemma of the heap encoding)")
 		return
 	}
+}
+
+func sortedKeysS(m map[string]string) []string {
+	out := make([]string, 0, len(m))
+	for k := range m {
+		out = append(out, k)
+	}
+	sort.Strings(out)
+	return out
 }
